@@ -15,12 +15,13 @@ import (
 //     out of their stake; the block must still apply), or
 //   - pUSD itself without a rate (nobody can be valued and nobody is paid, but the snapshot is
 //     still taken: the NEXT payout uses this height's balances as "the previous snapshot").
-// Chain k%2==0: plain snapshot at 144, every held non-USD asset unrated at 288.
+// Chain k%2==0: plain snapshot at 144; at 288 every held non-USD asset unrated (k%4==0) or every
+// other one by ticker number (k%4==2: priced assets sit behind unrated ones in the valuation order).
 // Chain k%2==1: pUSD unrated at 144, plain snapshot at 288 (pays on min(balances at 144, at 288)).
 func scenSnapshots(rep *Report, tier string, seed int64) {
-	n := 2
+	n := 3
 	if tier == "thorough" {
-		n = 6
+		n = 8
 	}
 	if rep.Property == "C08" && tier != "thorough" {
 		n = 1
@@ -49,11 +50,13 @@ func runSnapshotChain(rep *Report, seed int64, k int) {
 		var unrated []string
 		switch {
 		case k%2 == 0 && h == s2:
+			// chain 0: every held non-USD asset; chain 2, 4, …: every other one (by ticker number), so
+			// that stakers hold priced assets BEHIND an unrated one in the valuation's asset order
 			seen := map[string]bool{}
 			for _, u := range g.Users {
 				for _, t := range w.NonZeroAssets(u.FA()) {
 					name := t.String()[1:]
-					if t != fat2.PTickerPEG && t != fat2.PTickerUSD && !seen[name] {
+					if t != fat2.PTickerPEG && t != fat2.PTickerUSD && !seen[name] && (k%4 == 0 || int(t)%2 == 1) {
 						seen[name] = true
 						unrated = append(unrated, name)
 					}
